@@ -128,6 +128,10 @@ def catalogue_shapes(tier="quick"):
     add("holes_neg_only", lambda r: runs_to_values([(-30, -28), (-20, -20), (-9, -7)]) if signed(r) else None)
     add("holes_both_sides_of_0", lambda r: runs_to_values([(-6, -5), (-1, 1), (7, 9)]) if signed(r) else None)
     add("holes_small_for_inline", lambda r: [1, 3, 4])
+    swide0 = ["i64", "i128", "isize"]
+    add("holes_span_2_63_up", lambda r: [-2, -1, I64_MAX - 1, I64_MAX] if r in swide0 else None, swide0)
+    add("holes_span_2_63_down", lambda r: [I64_MIN + 1, I64_MIN + 2, 1, 2] if r in swide0 else None, swide0)
+    add("two_at_i64_extremes", lambda r: [I64_MIN + 1, I64_MAX] if r in swide0 else None, swide0)
     add("holes_300_singletons", lambda r: list(range(-300, 300, 2)) if r in ("i16", "i32", "i64", "isize", "i128") else None,
         ["i16", "i32", "i64", "isize", "i128"])
 
@@ -340,6 +344,9 @@ def draw_config(rng, gapless, iter_mode, force=None):
         c["names"] = True
     if c["iter"] == "table_inline":
         c["range"] = False
+    if force and force.get("_huge"):
+        c["flags"] = [f for f in c["flags"] if f not in ("Debug", "Display", "IntoStr")]
+    c.pop("_huge", None)
     # Debug/Display/IntoStr pull in as_str automatically; nothing to fix up
     return c
 
@@ -398,7 +405,7 @@ def auto_iter_resolution(c, n, r, gapless):
     return "auto->next_and_back"
 
 
-def render_module(name, r, variants, attr_lines, c, tags):
+def render_module(name, r, variants, attr_lines, c, tags, ord_reversed=False):
     """returns (rust source, truth dict)"""
     srt = sorted(variants, key=lambda v: v["value"])
     n = len(srt)
@@ -410,7 +417,10 @@ def render_module(name, r, variants, attr_lines, c, tags):
     A("use simcore::dynit::BoxIter;")
     A("use simcore::module::{enum_value, Module};")
     A("")
-    A("#[derive(Clone, Copy, PartialEq, Eq, PartialOrd, Ord, EnumTools)]")
+    if ord_reversed:
+        A("#[derive(Clone, Copy, PartialEq, Eq, EnumTools)]")
+    else:
+        A("#[derive(Clone, Copy, PartialEq, Eq, PartialOrd, Ord, EnumTools)]")
     for l in attr_lines:
         A(l)
     A("#[repr(%s)]" % r)
@@ -425,6 +435,10 @@ def render_module(name, r, variants, attr_lines, c, tags):
     A("}")
     A("")
     A("type R = %s;" % r)
+    if ord_reversed:
+        A("// hand-written order: the REVERSE of discriminant order")
+        A("impl ::core::cmp::Ord for E { fn cmp(&self, o: &Self) -> ::core::cmp::Ordering { (*o as R).cmp(&(*self as R)) } }")
+        A("impl ::core::cmp::PartialOrd for E { fn partial_cmp(&self, o: &Self) -> Option<::core::cmp::Ordering> { Some(::core::cmp::Ord::cmp(self, o)) } }")
     A("const N: usize = %d;" % n)
     A("const _: () = assert!(::core::mem::size_of::<E>() == ::core::mem::size_of::<R>());")
     A("static ALL: [E; N] = [%s];" % ", ".join("E::" + v["ident"] for v in srt))
@@ -492,6 +506,7 @@ def render_module(name, r, variants, attr_lines, c, tags):
     A("    iter_mode: %s," % rust_str(label))
     A("    shape: %s," % rust_str(",".join(tags)))
     A("    config: %s," % rust_str(" ".join(attr_lines)))
+    A("    ord_reversed: %s," % ("true" if ord_reversed else "false"))
     A("    disc: &DISC,")
     A("    names: &NAME,")
     A("    cast,")
@@ -501,7 +516,7 @@ def render_module(name, r, variants, attr_lines, c, tags):
     A("};")
     truth = {
         "name": name, "repr": r, "attrs": attr_lines, "config": c, "iter_mode": label, "shape": tags,
-        "variants": variants,
+        "variants": variants, "ord_reversed": ord_reversed,
         "sorted": [[v["ident"], v["value"], nm] for v, nm in zip(srt, names)],
     }
     return "\n".join(L) + "\n", truth
@@ -525,17 +540,21 @@ def plan_corpus(seed, tier, shard=0):
         attrs = config_attr_lines(c_rng, c)
         tags = shape_tags(values, r, shape_name)
         name = "m_%04d" % len(specs)
-        specs.append({"name": name, "repr": r, "variants": variants, "attrs": attrs, "config": c, "tags": tags})
+        specs.append({"name": name, "repr": r, "variants": variants, "attrs": attrs, "config": c, "tags": tags,
+                      "ord_reversed": c_rng.chance(1, 6)})
 
     def configs_for(values, r, full):
         gapless = values[-1] - values[0] == len(values) - 1
         modes = legal_iter_modes(gapless)
         out = []
         if len(values) > 5000:
-            # compile time: three configurations only
-            out.append(("next_and_back", {"as_str": "table", "range": True, "names": True, "from_str": None, "FromStr": None}))
-            out.append(("table", {"range": True, "names": False, "as_str": None, "from_str": None, "FromStr": None}))
-            out.append(("auto", {"range": True, "names": False, "as_str": None, "from_str": None, "FromStr": None}))
+            # compile time (minutes per module): few configurations, no string feature in match mode
+            # (HUGE_OK_FLAGS below keeps Debug/Display/IntoStr, which would pull in a 65534-arm match, out)
+            out.append(("next_and_back", {"as_str": "table", "range": True, "names": True, "from_str": None, "FromStr": None,
+                                          "_huge": True}))
+            if gapless:
+                out.append(("table", {"range": True, "names": False, "as_str": None, "from_str": None, "FromStr": None,
+                                      "_huge": True}))
             return out
         for m in modes:
             if m == "table_inline" and len(values) > 300:
@@ -653,7 +672,8 @@ def emit_corpus(specs, out_dir, simcore_path, repo_path, n_shards, lock_src, tag
         for sp in sh:
             if sp["name"] in exclude:
                 continue
-            src, truth = render_module(sp["name"], sp["repr"], sp["variants"], sp["attrs"], sp["config"], sp["tags"])
+            src, truth = render_module(sp["name"], sp["repr"], sp["variants"], sp["attrs"], sp["config"], sp["tags"],
+                                       sp.get("ord_reversed", False))
             truths.append(truth)
             w("s%d/src/%s.rs" % (k, sp["name"]), src)
             mods.append(sp["name"])
